@@ -147,15 +147,15 @@ PROPS["C01"] = {
 
 PROPS["C15"] = {
     "level": "model_checking",
-    "kani": [{"package": "boa_engine", "flags": ENGINE_FLAGS, "tags": ["model", "c15a", "c01d", "c15d", "c15c", "c15e"]}],
+    "kani": [{"package": "boa_engine", "flags": ENGINE_FLAGS, "tags": ["model", "c15a", "c01d", "c15d", "c15c", "c15e", "c15f"]}],
     "assumptions": COMMON_ASSUME + [
         "JsValue::to_number is stubbed to the identity on Numbers (the real one returns exactly that for a Number without touching Context); a &mut Context placeholder is passed that must never be dereferenced",
-        "TypedArray is partially initialised (kind, byte_offset, byte_length, array_length); viewed_array_buffer is never read by the kernels under test",
+        "TypedArray / DataView are partially initialised (kind, byte_offset, byte_length, array_length); viewed_array_buffer is never read by the kernels under test",
         "byte offsets, lengths and buffer sizes are at most 2^53 (the allocation-time cap); copy buffers are 24 bytes with the stated offsets, counts symbolic",
     ],
     "outside_claim": [
         "sequences of buffer creation/resize/transfer/detach, %TypedArray% methods, Atomics: need Context and the GC heap (the bounds kernels ARE checked against an arbitrary current buffer length, which is what a resize changes)",
-        "BigInt64/BigUint64 conversions (num-bigint arithmetic), Float16/Float32 conversions, DataView index checks",
+        "BigInt64/BigUint64 conversions (num-bigint arithmetic), Float16 conversions, the DataView accept test itself (inline in get/set_view_value, which need Context; only the window it relies on is checked)",
         "non-Number operands (coercion needs Context); copy lengths above 24 bytes",
     ],
     "trusted_base": ["integer-arithmetic reference model harness/core/engine/src/lib.rs.model.kani.rs", "the to_number stub", "CBMC's memory model for pointer/alignment checks"],
@@ -168,7 +168,10 @@ PROPS["C15"] = {
                 "<= 2^53 and ALL u64 / double indices, an accepted index addresses bytes inside the buffer, -0/NaN/fractions/negatives are rejected, no "
                 "overflow. (3) Raw byte movers (memcpy in 3 shared/plain combinations, memmove, memmove_naive, compute_batch_offsets): on 24-byte "
                 "buffers with ALL contents and ALL counts the result equals the byte model, nothing outside the destination changes and every "
-                "access is in bounds and aligned for every object alignment (CBMC pointer checks). Buffer/view HISTORIES are NOT decided.",
+                "access is in bounds and aligned for every object alignment (CBMC pointer checks). (4) The typed-array-to-typed-array element cast "
+                "(TypedArrayKind::to_element_f64 / TypedArrayElement::cast, used by `new Int8Array(otherTypedArray)`) for ALL doubles per target "
+                "kind against the same modular model, and DataView's is_out_of_bounds/byte_length window for ALL offsets, lengths and "
+                "buffer sizes <= 2^53. Buffer/view HISTORIES are NOT decided.",
         "note": "Trusted: Kani/CBMC incl. its memory model, the integer reference model, the to_number stub, partial initialisation of TypedArray. "
                 "Outside: resize/detach/transfer histories as such, TypedArray builtins, Atomics, BigInt/float element types.",
         "technique": "bounded model checking of the compiled Rust (Kani/CBMC, SAT): full double/int domains vs integer spec model; symbolic view state vs bounds model; symbolic buffers vs byte model with pointer checks",
@@ -225,13 +228,15 @@ PROPS["C03"] = {
 
 PROPS["C13"] = {
     "level": "model_checking",
-    "kani": [{"package": "boa_engine", "flags": ENGINE_FLAGS, "tags": ["model", "c13a", "c01d"]}],
+    "kani": [{"package": "boa_engine", "flags": ENGINE_FLAGS, "tags": ["model", "c13a", "c01d"]},
+             {"package": "boa_string", "flags": [], "tags": ["c13s"]}],
     "assumptions": COMMON_ASSUME + [
         "digit strings are ASCII (the caller has already trimmed whitespace, sign and prefix)",
     ],
     "outside_claim": [
         "Number -> text: ryu-js shortest round trip, to_js_string_radix, toFixed/toExponential/toPrecision (float formatting loops and Context; the defects the property lists there are NOT decided)",
-        "decimal text -> Number via fast-float2 (Number(), parseFloat, numeric literals)",
+        "decimal text -> Number via fast-float2 (Number(), parseFloat, numeric literals); the prefix/whitespace dispatch of JsStr::to_number around the digit kernel",
+        "non-decimal literals longer than 32 hex digits (the dropped-digit path multiplies by powi, an over-approximated intrinsic in Kani)",
         "digit strings longer than the stated bounds",
     ],
     "trusted_base": ["Rust's u128/u64 -> f64 `as` conversion is correctly rounded"],
@@ -240,7 +245,9 @@ PROPS["C13"] = {
                 "(from_js_str_radix) for ALL radices 2..36 on all ASCII strings up to 4 characters (accept/reject and exact value), at the "
                 "16-digit overflow boundary of its exact path for radix 10 and 16, and beyond 2^53 / beyond 64 bits (radix 32 with 12 and 22 digits, "
                 "radix 16 with 27, radix 10 with 20; more in the thorough tier) against exact 128-bit integer arithmetic followed by one "
-                "correctly rounded conversion; plus ToInt32 for all 2^64 doubles. The formatting direction and StringToNumber are NOT decided.",
+                "correctly rounded conversion; plus ToInt32 for all 2^64 doubles; plus StringToNumber's 0b/0o/0x digit kernel "
+                "(parse_non_decimal_digits): ALL 3-byte strings per base (accept/reject incl. signs, exact value) and exact rounding at 14/16 hex, "
+                "22 octal, 60 binary digits (32 hex in the thorough tier). The formatting direction and decimal StringToNumber are NOT decided.",
         "note": "Trusted: Kani/CBMC float theory, Rust integer->float conversion. Outside: ryu-js, fast-float2, toFixed/toPrecision/"
                 "toExponential, toString(radix).",
         "technique": "bounded model checking of the compiled Rust (Kani/CBMC, SAT) vs exact 128-bit integer model",
